@@ -894,6 +894,9 @@ IndexStack indexStackOf(const VariablePtr &variable)
 
 void recordVariableEquivalences(const ComponentPtr &component, EquivalenceMap &equivalenceMap, IndexStack &indexStack)
 {
+    // Equivalences are recorded as positions in the model that holds the component: an equivalent variable
+    // that is in no model, or in another one, has no such position and cannot be carried over.
+    auto model = owningModel(component);
     for (size_t index = 0; index < component->variableCount(); ++index) {
         auto variable = component->variable(index);
         for (size_t j = 0; j < variable->equivalentVariableCount(); ++j) {
@@ -901,6 +904,9 @@ void recordVariableEquivalences(const ComponentPtr &component, EquivalenceMap &e
                 indexStack.push_back(index);
             }
             auto equivalentVariable = variable->equivalentVariable(j);
+            if ((model == nullptr) || (owningModel(equivalentVariable) != model)) {
+                continue;
+            }
             auto equivalentVariableIndexStack = indexStackOf(equivalentVariable);
             if (equivalenceMap.count(indexStack) == 0) {
                 equivalenceMap.emplace(indexStack, std::vector<IndexStack>());
